@@ -36,17 +36,20 @@ class Alarm:
         self.status = "alarm"       # alarm | violation | inconclusive | discharged
 
     def site_key(self):
-        """inline chain from the faulting op up to the first public function (names only)"""
+        """inline chain from the faulting op up to the first public (non-detail) function, names only"""
         names = []
-        for fn, fl_, ln in self.chain:
+        for ent in self.chain[:-1] if len(self.chain) > 1 else self.chain:
+            fn = ent[0]
             base = fn.split("<")[0]
             names.append(base)
-        return "<-".join(names[:-1]) if len(names) > 1 else "<-".join(names)
+            if len(ent) > 3 and not ent[3]:
+                break
+        return "<-".join(names)
 
     def where(self):
         if not self.chain:
             return "?"
-        fn, f, ln = self.chain[0]
+        fn, f, ln = self.chain[0][:3]
         return "%s:%d (%s)" % (f, ln, fn)
 
 
@@ -106,6 +109,7 @@ class Analyzer:
         self.early_join = early_join
         self.partition = {}
         self.symdeps = {}
+        self.fp80src = {}
         self.mod = mod
         self.fn = IR.materialize(fn, mod)
         self.join_threshold = join_threshold
@@ -625,30 +629,36 @@ class Analyzer:
         if not isinstance(p, PtrV):
             raise Broken("gep on non-pointer")
         off = p.off.lin
+        al = p.al
         ty = bty
         first = True
+        from math import gcd
         for i in idx:
             i = self.as_int(st, i)
             il = i.lin
             if first:
                 sz = IR.sizeof(ty, self.mod)
                 off = off.add(il.scale(sz))
+                al = gcd(al, sz * (abs(int(il.c)) if il.is_const() else 1))
                 first = False
                 continue
             rty = IR.resolve(ty, self.mod)
             if rty.kind == "array":
                 sz = IR.sizeof(rty.elem, self.mod)
                 off = off.add(il.scale(sz))
+                al = gcd(al, sz * (abs(int(il.c)) if il.is_const() else 1))
                 ty = rty.elem
             elif rty.kind == "struct":
                 if not il.is_const():
                     raise Broken("variable struct index")
-                off = off.addc(IR.field_offset(rty, int(il.c), self.mod))
+                fo = IR.field_offset(rty, int(il.c), self.mod)
+                off = off.addc(fo)
+                al = gcd(al, fo)
                 ty = rty.fields[int(il.c)]
             else:
                 raise Broken("gep into %r" % rty)
         lo, hi = st.rng_lin_int(off)
-        return PtrV(p.glob, IntV(64, off, lo, hi))
+        return PtrV(p.glob, IntV(64, off, lo, hi), al)
 
     def flat_global(self, g):
         """flatten a global initializer into (elem_size, [values]) if homogeneous"""
@@ -723,7 +733,10 @@ class Analyzer:
                     del parked[key]
                     if len(sts) > self.join_threshold or (len(sts) > self.early_join and self.same_control(sts, key[0])):
                         res.stats["joins"] += 1
-                        active.append(self.join(sts, key))
+                        try:
+                            active.append(self.join(sts, key))
+                        except Infeasible:
+                            pass
                     else:
                         active.extend(sts)
                 continue
@@ -797,6 +810,22 @@ class Analyzer:
         return True
 
     def join(self, sts, key):
+        ok = []
+        for s in sts:
+            try:
+                for v in s.env.values():
+                    if isinstance(v, IntV):
+                        s.rng(v)
+                    elif isinstance(v, PtrV):
+                        s.rng(v.off)
+                ok.append(s)
+            except Infeasible:
+                self.res.stats["infeasible"] += 1
+        sts = ok
+        if not sts:
+            raise Infeasible()
+        if len(sts) == 1:
+            return sts[0]
         base = sts[0].fork()
         head = key[0]
         names = set(base.env)
@@ -825,7 +854,6 @@ class Analyzer:
             if all(y in nb for y, _ in k):
                 nc[k] = (lo, hi)
         base.cons = nc
-        base.conlin = {k: v for k, v in base.conlin.items() if k in nc}
         env = {}
         for n in names:
             vs = [s.env[n] for s in sts]
@@ -876,7 +904,11 @@ class Analyzer:
                 hi = max(s.rng(v.off)[1] for s, v in zip(sts, vs))
                 t = T("joinp", head, key[3], n, repr(key[2]))
                 base.bounds[t] = (lo, hi)
-                env[n] = PtrV(v0.glob, IntV(64, Lin.sym(t), lo, hi))
+                from math import gcd as _g
+                al = 0
+                for v in vs:
+                    al = _g(al, v.al)
+                env[n] = PtrV(v0.glob, IntV(64, Lin.sym(t), lo, hi), al)
             # else: dropped (use will be reported as undefined -> Broken)
         # prune: keep only live names, and symbols/constraints reachable from them
         live = self.live_after_phi[head]
@@ -895,7 +927,6 @@ class Analyzer:
                 if v.slin is not None:
                     keep.update(v.slin.t)
         base.cons = {k: c for k, c in base.cons.items() if all(y in keep for y, _ in k)}
-        base.conlin = {k: v for k, v in base.conlin.items() if k in base.cons}
         base.bounds = {k: b for k, b in base.bounds.items() if k in keep}
         fkeep = set(v.fsym for v in env.values() if isinstance(v, FpV) and v.fsym is not None)
         base.fb = {k: b for k, b in base.fb.items() if k in fkeep or (k[0] == "f" and k[1:].isdigit())}
@@ -1581,15 +1612,15 @@ class Analyzer:
             self.res.stats["loads"] -= 1
             raise Split(cases, "oob")
         self.res.stats["loads_inbounds"] += 1
-        if lo % esz or (lo != hi and p.off.lin.integral_coefs() is False):
-            raise Broken("misaligned table access")
+        if p.al % esz:
+            raise Broken("cannot prove table access is element aligned")
+        lo = -((-lo) // esz) * esz
+        hi = hi // esz * esz
         if lo == hi:
             st.env[i.res] = self.cint(ty.bits, vals[lo // esz])
             return
         # offset must be a multiple of the element size: check through the form
         idxlin = p.off.lin.div(esz)
-        if not idxlin.integral_coefs():
-            raise Broken("cannot prove table offset is element aligned: %r" % p.off.lin)
         sub = vals[lo // esz: hi // esz + 1]
         sl, sh = sgn_rng(ty.bits)
         sub = [v if v <= sh else v - (1 << ty.bits) for v in sub]
@@ -1800,13 +1831,10 @@ class Analyzer:
         """is the exact rational value representable in the format (normal range, enough mantissa)?"""
         p = 53 if kind == "double" else 24
         # find power of two scale making all coefficients integral
-        den = 1
-        for k in list(xlin.t.values()) + [xlin.c]:
-            if isinstance(k, Fraction):
-                den = den * k.denominator // math.gcd(den, k.denominator)
+        den = xlin.d
         if den & (den - 1):
             return False
-        lo, hi = st.rng_raw(xlin.scale(den))
+        lo, hi = st.rng_num(xlin)
         mx = max(abs(lo), abs(hi))
         if mx >= (1 << p):
             return False
@@ -1842,13 +1870,20 @@ class Analyzer:
     def x_fpext(self, st, i):
         a = self.fval(st, i.ops[0])
         lo, hi, nan = self.frng(st, a)
-        st.env[i.res] = self.F(st, i.ty.kind, lo, hi, nan, T("fpext", a.term), a.xlin, a.slin)
+        r = self.F(st, i.ty.kind, lo, hi, nan, T("fpext", a.term), a.xlin, a.slin)
+        if i.ty.kind == "x86_fp80":
+            self.fp80src[r.term] = a
+        st.env[i.res] = r
 
     def x_fptrunc(self, st, i):
         a = self.fval(st, i.ops[0])
         kind = i.ty.kind
         lo, hi, nan = self.frng(st, a)
         if a.kind == "x86_fp80":
+            src = self.fp80src.get(a.term)
+            if src is not None and src.kind == kind:
+                st.env[i.res] = src      # widening then narrowing back is the identity
+                return
             if a.xlin is None or not a.xlin.is_const():
                 raise Broken("x86_fp80 arithmetic is not supported")
             fr = Fraction(a.xlin.c)
